@@ -180,6 +180,22 @@ def run_seed_child(seed):
 
 
 # ---------------------------------------------------------------- (c) fixed point
+def _fresh(v):
+    """an equal value that is a different object wherever the type allows (two equal dates in a document are two nodes;
+    whether the loader hands back one object or two must not show in the next dump)"""
+    if isinstance(v, (D.date, D.datetime)):
+        return v.replace()
+    if isinstance(v, bytes):
+        return bytes(bytearray(v))
+    if isinstance(v, str):
+        return ''.join(list(v))
+    if isinstance(v, float):
+        return float.fromhex(v.hex())
+    if type(v) is int:
+        return int(str(v))
+    return v
+
+
 def fixed_point(T, sub, name, mkv, opts, extra=None):
     for dn, Dm, Ld in DUMPERS:
         T.evaluations += 1
@@ -338,7 +354,8 @@ def run_job(job, T):
     elif kind == 'fp-cont':
         opts = list(U.option_sets(1))
         items = [c for c in U.containers() if c[0] != 'set-keyable'] + [('leaf:%d' % i, (lambda v=v: v)) for i, v in enumerate(U.LEAVES)] + \
-                [('leafnest:%d' % i, (lambda v=v: [v, {'k': v}])) for i, v in enumerate(U.LEAVES)]
+                [('leafnest:%d' % i, (lambda v=v: [v, {'k': v}])) for i, v in enumerate(U.LEAVES)] + \
+                [('leaftwice:%d' % i, (lambda v=v: [_fresh(v), {'k': _fresh(v)}, _fresh(v)])) for i, v in enumerate(U.LEAVES)]
         for i, (name, mkv) in enumerate(items):
             if i % job[2] != job[1]:
                 continue
@@ -440,7 +457,8 @@ def replay(sub, case, T):
             fixed_point(T, sub, 'str', mkv, opts, {'string': s, 'place': case.get('place')})
         else:
             items = dict(list(U.containers()) + [('leaf:%d' % i, (lambda v=v: v)) for i, v in enumerate(U.LEAVES)] +
-                         [('leafnest:%d' % i, (lambda v=v: [v, {'k': v}])) for i, v in enumerate(U.LEAVES)])
+                         [('leafnest:%d' % i, (lambda v=v: [v, {'k': v}])) for i, v in enumerate(U.LEAVES)] +
+                         [('leaftwice:%d' % i, (lambda v=v: [_fresh(v), {'k': _fresh(v)}, _fresh(v)])) for i, v in enumerate(U.LEAVES)])
             fixed_point(T, sub, case['value'], items[case['value']], opts, {'container': case['value']})
 
 
